@@ -306,6 +306,28 @@ CORPUS = [
 ]
 
 
+def l1_done(part, r, m, n):
+    """`IdleCommand.parse_done` vs `Done.parseDone` (about which C16_done and C16_only_done are proved): which lines end IDLE, and what is left in the buffer"""
+    from pymap.parsing.command.select import IdleCommand
+    from pymap.parsing.exceptions import NotParseable
+    from .common.model import nats
+    cmd = IdleCommand(b't')
+    words = [b'DONE', b'done', b'DoNe', b'dONE', b'DONE ', b' DONE', b'DONE\r', b'DO\rNE', b'\rDONE', b'DONEDONE', b'DON', b'', b'DONE\x00', b'D\xd6NE', b'DONE\t', b'x', b'\xc4\x90ONE', b'done\x0b']
+    for _ in range(n):
+        w = r.choice(words) if r.random() < 0.8 else bytes(r.choice(b'DONEdone \r\n\tx') for _ in range(r.randint(0, 6)))
+        line = w + r.choice([b'\r\n', b'\n', b'\r\n', b'', b'\r', b'\r\r\n', b'\n\n']) + r.choice([b'', b'', b'a NOOP\r\n', b'\n'])
+        try:
+            d, rest = cmd.parse_done(memoryview(line))
+            impl = ('1' if d else '0') + '|' + nats(bytes(rest))
+        except NotParseable:
+            impl = 'none'
+        mod = m.ask('done ' + nats(line))
+        part.stat('l1-done')
+        part.case(key='done:' + line.hex(), nontrivial=w.upper().strip() == b'DONE' and w != b'DONE')
+        if impl != mod:
+            part.violation('correspondence', f'IdleCommand.parse_done({line!r}) = {impl}, Done.parseDone = {mod}', dict(level='L1', line=list(line)), signature='l1-done')
+
+
 def worker(job):
     seed, n, corpus, maildir = job
     from . import c05       # installs imapresp.tagged_safe
@@ -331,6 +353,8 @@ def worker(job):
                 sc = [s if s[0] == 'release' else ['mut', 1, 'append', []] for s in sc]
             with guarded(part, 'C16 idle maildir', dict(script=sc, backend='maildir', loose=loose)):
                 asyncio.run(idle_case(part, m, r, sc, 'maildir', 'DONE', None, loose))
+        with guarded(part, 'C16 L1 done', dict(level='L1', seed=seed)):
+            l1_done(part, r, m, max(60, n * 4))
     finally:
         m.close()
     return part.result()
